@@ -567,6 +567,63 @@ theorem rlScenario_never_panics (old new : RLSpec) (pre : List FReq) (ops : List
 example : (rlScenario false specX specX [⟨"GET", "/a"⟩] [(false, ⟨"GET", "/a"⟩), (true, ⟨"GET", "/b"⟩)]) =
     ([HOut.pass], [HOut.limited, HOut.pass]) := by decide
 
+/-! ### Validator: closing generation g-1 cannot reach generation g's user cache -/
+
+/-- Invariant of `vRun false`: the current cache is the newest object, every closed one is older. -/
+private def VInv (s : VSt) : Prop := s.cur < s.next ∧ ∀ c ∈ s.closed, c < s.cur
+
+/-- **Every history of pipeline updates** (any number of `new.Inherit(old); old.Close()` steps, with
+or without a change of the basicAuth section): the current generation's user cache has never been
+closed — its file watcher / etcd syncer is alive — and every observation the `validatorgen`
+harness makes along the way is `alive` (the judge's expectation `vTrace false`). -/
+theorem validator_current_cache_alive (steps : List Bool) :
+    vAlive (vRun false vInit steps) = true ∧ ∀ b ∈ vTrace false vInit steps, b = true := by
+  have key : ∀ (steps : List Bool) (s : VSt), VInv s →
+      vAlive (vRun false s steps) = true ∧ ∀ b ∈ vTrace false s steps, b = true := by
+    intro steps
+    induction steps with
+    | nil =>
+      intro s ⟨_, h2⟩
+      have : vAlive s = true := by
+        simp only [vAlive, Bool.not_eq_true', List.contains_eq_mem, decide_eq_false_iff_not]
+        intro hm; exact Nat.lt_irrefl _ (h2 _ hm)
+      exact ⟨this, by simp [vTrace, this]⟩
+    | cons a rest ih =>
+      intro s ⟨h1, h2⟩
+      have hal : vAlive s = true := by
+        simp only [vAlive, Bool.not_eq_true', List.contains_eq_mem, decide_eq_false_iff_not]
+        intro hm; exact Nat.lt_irrefl _ (h2 _ hm)
+      have hinv : VInv (vStep false s a) := by
+        refine ⟨by simp [vStep], fun c hc => ?_⟩
+        simp only [vStep, Bool.false_and, Bool.false_eq_true, if_false, List.mem_cons] at hc ⊢
+        rcases hc with rfl | hc
+        · exact h1
+        · exact Nat.lt_trans (h2 c hc) h1
+      obtain ⟨i1, i2⟩ := ih (vStep false s a) hinv
+      refine ⟨i1, fun b hb => ?_⟩
+      simp only [vTrace, List.mem_cons] at hb
+      rcases hb with rfl | hb
+      · exact hal
+      · exact i2 b hb
+  exact key steps vInit ⟨by decide, by simp [vInit]⟩
+
+/-- Contrast (seeded change C06-m5, replayed on the real code by the `validatorgen` harness): if the
+new generation takes over the previous generation's cache when the basicAuth section is unchanged,
+the very first such update leaves the current generation with a closed cache; an update that
+changes the section is still fine. -/
+theorem shared_cache_closed_by_previous_generation :
+    vAlive (vRun true vInit [true]) = false ∧ vTrace true vInit [true, false, true] = [true, false, true, false] ∧
+      vAlive (vRun true vInit [false]) = true ∧ vTrace false vInit [true, false, true] = [true, true, true, true] := by
+  decide
+
+open EgVerif.Gen in
+/-- Regenerated: every assignment to the Validator's `basicAuth` is a fresh `NewBasicAuthValidator(…)`
+built without any parameter of the enclosing method (and, by `filterKindTouchesPrev`, `Inherit` does
+not mention the previous generation) — the `share = false` of the model. -/
+theorem validator_inherit_fresh_cache :
+    FactsC11.validatorInheritFreshCache = true ∧ FactsC11.validatorBasicAuthNotFresh = [] ∧
+      FactsC11.filterKindTouchesPrev.lookup "Validator" = some false := by decide
+
 /-! ## Regenerated facts (the tie for the atomicity assumptions of Part 1 and the kind list of Part 3) -/
 
 open EgVerif.Gen in
